@@ -6,6 +6,11 @@ c_Fresh0 == <<>>
 c_ModeAll == {"Replace", "And", "Or", "Xor", "AndNot", "New"}
 c_Mode3 == {"Replace", "Xor", "New"}
 c_Mode2 == {"AndNot", "New"}
+c_AllKinds == {"AddData", "RemoveData", "ApplySubsetState", "ApplyROI"}
+c_ApplyOnly == {"ApplySubsetState"}
+c_ApplyAdd == {"AddData", "ApplySubsetState"}
+c_ModeXN == {"Xor", "New"}
+D8 == TLCGet("level") <= 9
 sview == svars
 D4 == TLCGet("level") <= 5
 D5 == TLCGet("level") <= 6
